@@ -157,6 +157,9 @@ def gen_alloc(rnd):
     for c in range(1, nchan + 1):
         if rnd.random() < 0.6:
             threads.append([(c, ('close', 200))])
+            if rnd.random() < 0.4:
+                # the same channel closed by a second thread at the same time
+                threads.append([(c, ('close', 201))])
     nopen = sum(len(t) for t in threads if t[0][1][0] == 'open')
     ev = []
     if nchan and rnd.random() < 0.5:
